@@ -307,6 +307,59 @@ pub fn input_bad_state_constraint(spec: &mut SysSpec, variant: u64, fresh: bool)
     spec.pattern = "input-bad+state-constraint";
 }
 
+/// A constraint gated by a chain of delay registers (added after an independently seeded PDR optimisation
+/// that dropped from its cubes the states that only feed the next-state function of a constraint's state):
+///   fuse (init 0; next = 1 | fuse & keep | fuse | keep),  armed_1.next = fuse, ..., armed_n.next = armed_{n-1}
+///   constraint  !req | armed_n          bad  req            (variant: bad = cnt == k, constraint cnt == k-1 -> armed_n)
+/// The bad state is reachable exactly when the chain can fill up; none of the chain states is in the
+/// combinational support of the bad state, and only the last one is read by the constraint. Replaces the system.
+pub fn delayed_gate(spec: &mut SysSpec, variant: u64) {
+    spec.states.clear();
+    spec.inputs.clear();
+    spec.anon_inputs.clear();
+    spec.outputs.clear();
+    spec.named.clear();
+    spec.bads.clear();
+    spec.constraints.clear();
+    let b1 = Ty::BV(1);
+    let lit1 = |v: u32| Sh::Lit(1, BigUint::from(v));
+    spec.inputs.push(b1); // req
+    spec.inputs.push(b1); // keep
+    spec.anon_inputs.extend([false, false]);
+    let req = Sh::Sym(0, b1);
+    let keep = Sh::Sym(1, b1);
+    let fuse = Sh::Sym(STATE_BASE, b1);
+    let fuse_next = match variant % 3 {
+        0 => lit1(1),
+        1 => Sh::Op(Op::And, [0, 0], vec![fuse.clone(), keep.clone()]),
+        _ => Sh::Op(Op::Or, [0, 0], vec![fuse.clone(), keep]),
+    };
+    spec.states.push(StateSpec { ty: b1, init: Some(lit1(0)), next: Some(fuse_next) });
+    let n = 1 + (variant / 3) % 2;
+    let mut prev = fuse;
+    for i in 0..n {
+        let me = Sh::Sym(STATE_BASE + 1 + i as u8, b1);
+        spec.states.push(StateSpec { ty: b1, init: Some(lit1(0)), next: Some(prev.clone()) });
+        prev = me;
+    }
+    let armed = prev;
+    if (variant / 6) % 2 == 0 {
+        spec.constraints.push(Sh::Op(Op::Or, [0, 0], vec![Sh::Op(Op::Not, [0, 0], vec![req.clone()]), armed]));
+        spec.bads.push(req);
+    } else {
+        // 2-bit counter; leaving cnt == 2 needs the gate
+        let t = Ty::BV(2);
+        let ci = STATE_BASE + 1 + n as u8;
+        let cnt = Sh::Sym(ci, t);
+        spec.states.push(StateSpec { ty: t, init: Some(Sh::Lit(2, BigUint::from(0u32))), next: Some(Sh::Op(Op::Add, [0, 0], vec![cnt.clone(), Sh::Lit(2, BigUint::from(1u32))])) });
+        let at2 = Sh::Op(Op::Equal, [0, 0], vec![cnt.clone(), Sh::Lit(2, BigUint::from(2u32))]);
+        spec.constraints.push(Sh::Op(Op::Or, [0, 0], vec![Sh::Op(Op::Not, [0, 0], vec![at2]), armed]));
+        spec.bads.push(Sh::Op(Op::Equal, [0, 0], vec![cnt, Sh::Lit(2, BigUint::from(3u32))]));
+        let _ = req;
+    }
+    spec.pattern = "delayed-gate";
+}
+
 pub fn show_with(e: &Sh, nm: &dyn Fn(u8, Ty) -> String) -> String {
     match e {
         Sh::Sym(i, t) => nm(*i, *t),
